@@ -217,6 +217,26 @@ type Obs struct {
 	Bases []string `json:"bases,omitempty"`
 	note  string
 	show  string
+	after [2]*Val // operand objects re-read after the operation (Go API route)
+}
+
+// valOfObject reads an operand object back (nil if it is no longer a number object).
+func valOfObject(o py.Object) (v *Val) {
+	defer func() {
+		if recover() != nil {
+			v = nil
+		}
+	}()
+	switch t := o.(type) {
+	case py.Float:
+		return VF(float64(t))
+	case py.Complex:
+		return VC(complex128(t))
+	}
+	if i, ok := intOf(o); ok {
+		return VI(i)
+	}
+	return nil
 }
 
 type Line struct {
@@ -226,6 +246,8 @@ type Line struct {
 	Txt *[]int `json:"txt,omitempty"`
 	O   Obs    `json:"o"`
 	O2  *Obs   `json:"o2,omitempty"`
+	XA  *Val   `json:"xa,omitempty"` // the operands re-read after the operation (numbers are immutable)
+	YA  *Val   `json:"ya,omitempty"`
 }
 
 type Case struct {
@@ -359,6 +381,19 @@ func (e *apiEnv) run(c *Case) (Obs, *Obs) {
 	if c.Y != nil {
 		y = c.Y.obj()
 	}
+	o, o2 := e.run1(c, x, y)
+	if o.K != "timeout" {
+		if x != nil {
+			o.after[0] = valOfObject(x)
+		}
+		if y != nil {
+			o.after[1] = valOfObject(y)
+		}
+	}
+	return o, o2
+}
+
+func (e *apiEnv) run1(c *Case, x, y py.Object) (Obs, *Obs) {
 	switch c.Op {
 	case "powagree":
 		o := guard(func() (py.Object, error) { return py.Pow(x, y, py.None) })
@@ -1067,9 +1102,25 @@ func main() {
 	shards := make([]bytes.Buffer, nShards)
 	index := make([][]int, nShards)
 	opCount, viaCount, kindCount, mixCount := map[string]int{}, map[string]int{}, map[string]int{}, map[string]int{}
+	operandsReread := 0
 	for i, c := range g.cases {
 		op := c.Op
 		ln := Line{Op: op, X: c.X, Y: c.Y, O: obs[i], O2: obs2[i]}
+		if c.Via == "api" {
+			unreadable := &Val{T: "gone"}
+			if c.X != nil {
+				if ln.XA = obs[i].after[0]; ln.XA == nil {
+					ln.XA = unreadable
+				}
+				operandsReread++
+			}
+			if c.Y != nil {
+				if ln.YA = obs[i].after[1]; ln.YA == nil {
+					ln.YA = unreadable
+				}
+				operandsReread++
+			}
+		}
 		if op == "literal" {
 			ln.Op = "fromstr" // a float literal in source text denotes what float(text) denotes
 		}
@@ -1228,6 +1279,7 @@ func main() {
 	rep.Extra["lines_by_observed_kind"] = kindCount
 	rep.Extra["lines_by_operand_types"] = mixCount
 	rep.Extra["lines_rejected_by_spec"] = len(hits)
+	rep.Extra["operands_reread_after_the_operation"] = operandsReread
 	rep.Extra["cases_dropped_after_timeout"] = total - len(g.cases)
 	rep.Extra["run_wall_s"] = runWall
 	rep.Extra["tlc_trace_wall_s"] = time.Since(tTLC).Seconds()
